@@ -675,12 +675,6 @@ impl<P: consensus::Parameters> DeferredPcztBuilder<P> {
         mut rng: R,
         fee_rule: &FR,
     ) -> Result<PcztResult<P>, Error<FR::Error>> {
-        fn in_use(builder: &orchard::builder::Builder) -> bool {
-            !builder.spends().is_empty()
-                || !builder.outputs().is_empty()
-                || !builder.changes().is_empty()
-        }
-
         let fee = self.get_fee(fee_rule).map_err(Error::Fee)?;
 
         // After fees are accounted for, the value balance of the transaction must be zero.
@@ -706,7 +700,9 @@ impl<P: consensus::Parameters> DeferredPcztBuilder<P> {
             Ordering::Equal => (),
         };
 
-        let (orchard_bundle, orchard_meta) = if in_use(&self.orchard_builder) {
+        // A bundle is emitted exactly when `get_fee` charged for its actions: something was
+        // added to the pool, or its padding requires a bundle.
+        let (orchard_bundle, orchard_meta) = if orchard_bundle_expected(&self.orchard_builder) {
             let (bundle, meta) = self
                 .orchard_builder
                 .build_for_pczt(&mut rng)
@@ -715,7 +711,7 @@ impl<P: consensus::Parameters> DeferredPcztBuilder<P> {
         } else {
             (None, orchard::builder::BundleMetadata::empty())
         };
-        let (ironwood_bundle, ironwood_meta) = if in_use(&self.ironwood_builder) {
+        let (ironwood_bundle, ironwood_meta) = if orchard_bundle_expected(&self.ironwood_builder) {
             let (bundle, meta) = self
                 .ironwood_builder
                 .build_for_pczt(&mut rng)
@@ -2341,6 +2337,67 @@ mod tests {
                 orchard::note::NoteVersion::V2
             ))
         );
+    }
+
+    #[test]
+    #[cfg(feature = "circuits")]
+    fn deferred_builder_emits_the_required_bundle_it_charges_for() {
+        use super::DeferredPcztBuilder;
+        use crate::transaction::fees::zip317;
+
+        // The Ironwood padding requires a bundle, nothing is added to the pool: the fee covers
+        // its two dummy actions, so the PCZT must contain them.
+        let builder = DeferredPcztBuilder::new::<zip317::FeeError>(
+            nu6_3_test_network(),
+            BlockHeight::from_u32(10),
+            BundlePadding::DEFAULT,
+            BundlePadding {
+                bundle_required: true,
+                pad_to_minimum: None,
+            },
+        )
+        .unwrap();
+        assert_eq!(
+            builder.get_fee(&zip317::FeeRule::standard()).unwrap(),
+            MINIMUM_FEE
+        );
+        // Unfunded, so the build is refused for exactly the fee of the two dummy actions.
+        assert_matches!(
+            builder.build_for_pczt(OsRng, &zip317::FeeRule::standard()),
+            Err(Error::InsufficientFunds(a)) if a == MINIMUM_FEE.into()
+        );
+
+        // With a zero fee the build succeeds and the required bundle is present.
+        struct Free;
+        impl crate::transaction::fees::FeeRule for Free {
+            type Error = Infallible;
+            fn fee_required<P: Parameters>(
+                &self,
+                _: &P,
+                _: BlockHeight,
+                _: impl IntoIterator<Item = crate::transaction::fees::transparent::InputSize>,
+                _: impl IntoIterator<Item = usize>,
+                _: usize,
+                _: usize,
+                _: usize,
+                _: usize,
+            ) -> Result<Zatoshis, Infallible> {
+                Ok(Zatoshis::ZERO)
+            }
+        }
+        let builder = DeferredPcztBuilder::new::<Infallible>(
+            nu6_3_test_network(),
+            BlockHeight::from_u32(10),
+            BundlePadding::DEFAULT,
+            BundlePadding {
+                bundle_required: true,
+                pad_to_minimum: None,
+            },
+        )
+        .unwrap();
+        let parts = builder.build_for_pczt(OsRng, &Free).unwrap().pczt_parts;
+        assert!(parts.orchard.is_none());
+        assert_eq!(parts.ironwood.unwrap().actions().len(), 2);
     }
 
     #[test]
